@@ -65,11 +65,33 @@ class LineCov:
 UNREACHABLE = []
 
 
+MISSING = []     # anchored names that the repository no longer has (information)
+
+
 def anchored_functions():
-    from MIP.mip import cellcard
-    from t4_geom_convert.Kernel.FileHandlers.Parser.ParseMCNPCell import \
-        ParseMCNPCell as P
-    return [cellcard.split, P.parse_all_cells, P.parse_one_cell,
-            P.parse_one_cell_worker, P.parse_material, P.apply_but,
-            P.to_fillid, P.parse_keywords, P.parse_fill_kw, P.parse_lat_kw,
-            P.parse_trcl_kw]
+    '''The functions named by the anchors of C15, resolved tolerantly: a name
+    that a rewrite removed or renamed is skipped and recorded, never an error
+    (coverage is information only).'''
+    funcs = []
+    del MISSING[:]
+    try:
+        from MIP.mip import cellcard
+        funcs.append(cellcard.split)
+    except Exception:                          # pylint: disable=broad-except
+        MISSING.append('cellcard.split')
+    try:
+        from t4_geom_convert.Kernel.FileHandlers.Parser.ParseMCNPCell import \
+            ParseMCNPCell as P
+    except Exception:                          # pylint: disable=broad-except
+        MISSING.append('ParseMCNPCell')
+        return funcs
+    for name in ('parse_all_cells', 'parse_one_cell', 'parse_one_cell_worker',
+                 'parse_material', 'apply_but', 'to_fillid', 'parse_keywords',
+                 'parse_fill_kw', 'parse_lat_kw', 'parse_trcl_kw'):
+        func = getattr(P, name, None)
+        func = getattr(func, '__func__', func)
+        if func is None or not hasattr(func, '__code__'):
+            MISSING.append('ParseMCNPCell.' + name)
+        else:
+            funcs.append(func)
+    return funcs
